@@ -473,10 +473,13 @@ fn rule_changes_around(
     dst_variant: &DstTransitionInfo,
     seconds: i64,
 ) -> TemporalResult<Vec<OffsetChange>> {
-    let milliseconds = seconds
-        .checked_mul(1_000)
-        .ok_or(TemporalError::range().with_message("seconds are outside the supported range."))?;
-    let year = utils::epoch_time_to_epoch_year(milliseconds);
+    // The year arithmetic below works on a day count that fits an `i32`: nothing beyond the
+    // representable instants (and the local readings a day around them) is supported.
+    const MAX_SECONDS: u64 = 8_640_000_000_000 + 2 * 86_400;
+    if seconds.unsigned_abs() > MAX_SECONDS {
+        return Err(TemporalError::range().with_message("seconds are outside the supported range."));
+    }
+    let year = utils::epoch_time_to_epoch_year(seconds * 1_000);
     let mut changes: Vec<OffsetChange> = (year - 1..=year + 1)
         .flat_map(|year| rule_changes(posix_tz_string, dst_variant, year))
         .collect();
